@@ -1230,4 +1230,24 @@ example : pre Reach.exRoot.erase = [[], [2], [2, 1]] ∧ axis Reach.exRoot.erase
     nextSibling Reach.exRoot.erase [0] = some [1] ∧ nextSibling Reach.exRoot.erase [1] = none := by decide
 example : HTree.pathOf 8 Reach.exRoot = some [2, 1] ∧ HTree.handleAt Reach.exRoot [2, 1] = some 8 := by decide
 
+/-- ⟦C07_inv_partition⟧ **The partition law from the invariant alone**: in ANY forest with `Forest.Inv` (however it was
+    reached), for every node of every parentless tree, ancestors / self / descendants / preceding / following
+    partition the normal nodes of its tree (for an attribute or namespace node: the four axes alone). -/
+theorem C07_inv_partition (f : Forest) (hi : f.Inv) :
+    ∀ r ∈ f.roots, ∀ p : Path, Valid r.erase p →
+      (isNormalAt r.erase p = true →
+        (axis r.erase .ancestor p ++ (p :: axis r.erase .descendant p) ++ axis r.erase .preceding p ++
+          axis r.erase .following p).Perm (pre r.erase) ∧
+        (axis r.erase .ancestor p ++ (p :: axis r.erase .descendant p) ++ axis r.erase .preceding p ++
+          axis r.erase .following p).Nodup) ∧
+      (isNormalAt r.erase p = false →
+        (axis r.erase .ancestor p ++ axis r.erase .descendant p ++ axis r.erase .preceding p ++
+          axis r.erase .following p).Perm (pre r.erase) ∧
+        (axis r.erase .ancestor p ++ axis r.erase .descendant p ++ axis r.erase .preceding p ++
+          axis r.erase .following p).Nodup) := by
+  intro r hr p hp
+  have hwf := Reach.wf_root hi hr
+  exact ⟨fun hn => ⟨C07_partition hwf hp hn, C07_partition_disjoint hwf hp hn⟩,
+    fun hn => C07_partition_abnormal hwf hp hn⟩
+
 end XotModel.Props
